@@ -53,3 +53,15 @@ def run(ctx, chk):
     chk.floor("ALIAS-RW", "output/input pairs of the same tower type", c["alias"], 300)
     chk.floor("CONST-IN", "const pointer parameters of the module", c["const"], 400)
     analyse(ctx, ctx.program("P381"), chk)
+    if chk.tier == "thorough":
+        # the field sizes whose pairing curves select the cubic, quartic and octic twists
+        from .. import facts
+        from ..facts import AnalysisBroken
+        for bits in (315, 330, 354, 575, 638):
+            name = "P%d" % bits
+            facts.CONFIGS.setdefault(name, ["-DFP_PRIME=%d" % bits] + (["-DBN_PRECI=%d" % (2 * bits + 64)] if bits > 512 else []))
+            try:
+                analyse(ctx, ctx.program(name), chk)
+            except AnalysisBroken as e:
+                chk.note("thorough: configuration %s: %s" % (name, str(e)[:160]))
+            ctx._prog.pop(name, None)
